@@ -4,6 +4,7 @@ package c13
 
 import (
 	"fmt"
+	"math"
 	"sort"
 	"strings"
 	"testing"
@@ -20,7 +21,14 @@ import (
 	"verif/internal/stats"
 )
 
-func TestMain(m *testing.M) { fix.Quiet(); stats.Main(m) }
+func TestMain(m *testing.M) {
+	fix.Quiet()
+	// Points arrive as Unix times and are rebuilt in the process's local zone.
+	// A zone far from UTC makes the local date differ from the UTC date for
+	// most of the day: only the instant's UTC reading may matter to a schedule.
+	time.Local = time.FixedZone("verif+13", 13*3600)
+	stats.Main(m)
+}
 
 // a fresh bare NATS server per case (no store: the harness is the only other
 // party on the bus), so that the subscription count tells when the rule
@@ -207,7 +215,7 @@ func genCondition(t *rapid.T, i int) (client.Condition, schedref.Sched) {
 	case 0:
 		c.ValueType = data.PointValueNumber
 		c.Operator = rapid.SampledFrom([]string{">", "<", "=", "!="}).Draw(t, "op")
-		c.Value = float64(rapid.IntRange(-2, 3).Draw(t, "threshold"))
+		c.Value = float64(rapid.IntRange(-2, 3).Draw(t, "threshold")) + rapid.SampledFrom([]float64{0, 0, 0, 0.5, 0.30000000000000004, 1e6}).Draw(t, "thresholdFrac")
 	case 1:
 		c.ValueType = data.PointValueOnOff
 		c.Value = float64(rapid.IntRange(0, 1).Draw(t, "onOff"))
@@ -272,7 +280,11 @@ func aimed(t *rapid.T, conds []client.Condition) (string, data.Point, bool) {
 	}
 	switch c.ValueType {
 	case data.PointValueNumber:
-		p.Value = c.Value + float64(rapid.IntRange(-1, 1).Draw(t, "aimDelta"))
+		// on the threshold, one away from it, or a hair away from it
+		p.Value = c.Value + rapid.SampledFrom([]float64{-1, 0, 1, -1, 0, 1, 1e-7, -1e-7, 5e-10, -5e-10}).Draw(t, "aimDelta")
+		if rapid.IntRange(0, 7).Draw(t, "aimNext") == 0 {
+			p.Value = math.Nextafter(c.Value, c.Value+float64(rapid.SampledFrom([]int{-1, 1}).Draw(t, "aimDir")))
+		}
 	case data.PointValueText:
 		if rapid.Bool().Draw(t, "aimText") {
 			p.Text = c.ValueText
@@ -290,7 +302,7 @@ func genPoint(t *rapid.T) data.Point {
 	return data.Point{
 		Type:  rapid.SampledFrom(pointTypes).Draw(t, "ptype"),
 		Key:   rapid.SampledFrom(pointKeys).Draw(t, "pkey"),
-		Value: float64(rapid.IntRange(-3, 4).Draw(t, "pvalue")),
+		Value: float64(rapid.IntRange(-3, 4).Draw(t, "pvalue")) + rapid.SampledFrom([]float64{0, 0, 0, 0.5, 1e-7, -1e-7}).Draw(t, "pfrac"),
 		Text:  rapid.SampledFrom(texts).Draw(t, "ptext"),
 		Time:  time.Unix(1700000000, 0),
 	}
